@@ -454,8 +454,21 @@ class C19(PropBase):
             reg = rng.range(-1, 16)
             br = rng.below(3)
             op = rng.below(4)
-            cases.append("T %d %d %d %s %s %d" % (a, reg, br, "-" if ctx is None else "A " + " ".join(map(str, ctx)),
-                                                    self.fmt_regs(kind, regs), op))
+            ctxs = "-" if ctx is None else "A " + " ".join(map(str, ctx))
+            if ctx is not None and rng.chance(1, 8):
+                # an x86 context through the hook: register_size 4 (4-byte poison patterns), 10 "registers" incl. eflags
+                x = []
+                for v in ctx[:10]:
+                    st = rng.below(4)
+                    if st == 0:
+                        x.append(int.from_bytes(bytes([rng.choice(POISON + [0, 0xff, 0x11])]) * 4, "little"))
+                    elif st == 1:
+                        x.append(int.from_bytes(bytes([rng.choice(POISON)]) * 2, "little"))
+                    else:
+                        x.append(v & 0xffffffff)
+                ctxs = "X " + " ".join(map(str, x))
+                dist["x86_ctx"] = dist.get("x86_ctx", 0) + 1
+            cases.append("T %d %d %d %s %s %d" % (a, reg, br, ctxs, self.fmt_regs(kind, regs), op))
             dist["T"] += 1
             dist["with_ctx"] += ctx is not None
             dist["maps"] += kind
@@ -518,7 +531,7 @@ class C19(PropBase):
         # instructions without a memory operand (no accesses, no registers): nop / mov rax,rbx
         for instr in ("90", "4889d8"):
             cases.append("Q 9 1 11 1 0 0 0 65536 A %s %s - D 0 0 0 0 0 0 0 1 0 4096 4" % (" ".join(["4096"] * 17), instr))
-        for _ in range(4000 if tier == "quick" else 40000):
+        for _ in range(8000 if tier == "quick" else 60000):
             cases.append(self.gen_q(rng, dist))
             dist["Q"] = dist.get("Q", 0) + 1
         return cases, dist, False
@@ -543,6 +556,8 @@ class C19(PropBase):
             i = 4
             if t[i] == "-":
                 i += 1
+            elif t[i] == "X":
+                i += 11
             else:
                 i += 18
             kind, n = int(t[i]), int(t[i + 1])
